@@ -7,9 +7,9 @@ RES_TOKENS = ["&", "<", ">", '"', "'", "%", "#", "{", "}", "$", "~", "^", "a_b",
 UTF = ["é", "日本", "ü", "—", "😀"]
 
 
-def run(rng, k, allow_quote=True, pipe_safe=True, no_hash=False):
+def run(rng, k, allow_quote=True, pipe_safe=True, no_hash=False, no_brace=False):
     """a planted text run: a unique marker word followed by reserved tokens separated by spaces"""
-    toks = [t for t in rng.sample(RES_TOKENS, rng.randint(1, 5)) if (allow_quote or t not in ('"', "'")) and not (no_hash and t == "#")]
+    toks = [t for t in rng.sample(RES_TOKENS, rng.randint(1, 5)) if (allow_quote or t not in ('"', "'")) and not (no_hash and t == "#") and not (no_brace and t in "{}")]
     if rng.random() < 0.3 or not toks:
         toks.append(rng.choice(UTF))
     return "Zq%dx %s" % (k, " ".join(toks))
@@ -28,7 +28,7 @@ def document(rng, nested_notes=True, meta=None):
         planted.append((pos, "Zq%dx" % k[0], t))
         return t
     blocks = []
-    kinds = ["para", "heading", "list", "table", "link", "image", "footnote", "codespan", "codeblock", "quote", "deflist", "strong", "setext", "fence", "autolink", "reflink"]
+    kinds = ["para", "heading", "list", "table", "link", "image", "footnote", "codespan", "codeblock", "quote", "deflist", "strong", "setext", "fence", "autolink", "reflink", "citation"]
     rng.shuffle(kinds)
     notes = []
     for kind in kinds[: rng.randint(3, len(kinds))]:
@@ -57,6 +57,11 @@ def document(rng, nested_notes=True, meta=None):
             k[0] += 1
             blocks.append("Ref [%s][r%d] link." % (r("link text", allow_quote=False), k[0]))
             notes.append("[r%d]: http://example.com/r%d?a=1&b=2 \"%s\"" % (k[0], k[0], r("link title", allow_quote=False)))
+        elif kind == "citation":
+            # the locator of a citation is document text (braces left out: a lone brace in the LaTeX locator would be reported as broken nesting)
+            loc = r("citation locator", allow_quote=False, no_brace=True)
+            blocks.append("Cited [%s][#ck%d] here." % (loc, k[0]))
+            notes.append("[#ck%d]: Source %d." % (k[0], k[0]))
         elif kind == "codespan": blocks.append("Code `%s` span." % r("code span"))
         elif kind == "codeblock": blocks.append("    " + r("code block"))
         elif kind == "fence":
